@@ -36,19 +36,25 @@ fn default_escape(s: &str, attr: bool) -> String {
 }
 
 /// cells: (pos, kind, physical formula text); builds one workbook with sheet S1
-fn build(fmt: &str, cells: &[((u32, u32), String, String)]) -> Vec<u8> {
+/// `implicit` (xlsx): leave the r attribute off every row / cell that sits at the implicit position
+/// (previous + 1, first = 0), as the ECMA cursor rule allows
+fn build(fmt: &str, cells: &[((u32, u32), String, String)], implicit: bool) -> Vec<u8> {
     let mut sorted: Vec<_> = cells.to_vec();
     sorted.sort_by_key(|c| c.0);
     if fmt == "xlsx" {
         let mut toks = Vec::new();
         let mut cur: Option<u32> = None;
+        let mut next_col = 0u32;
         for (i, ((r, c), kind, raw)) in sorted.iter().enumerate() {
             if cur != Some(*r) {
                 if cur.is_some() { toks.push(json!({"k": "rowend"})); }
-                toks.push(json!({"k": "row", "r": r}));
+                let next_row = cur.map_or(0, |x| x + 1);
+                toks.push(if implicit && *r == next_row { json!({"k": "row"}) } else { json!({"k": "row", "r": r}) });
                 cur = Some(*r);
+                next_col = 0;
             }
-            let mut t = json!({"k": "c", "r": [r, c]});
+            let mut t = if implicit && *c == next_col { json!({"k": "c"}) } else { json!({"k": "c", "r": [r, c]}) };
+            next_col = c + 1;
             if kind != "val" { t["f_raw"] = json!(raw); }
             if kind != "fmlonly" {
                 // cached values of different types: number, string (t="str" for a formula), boolean
@@ -124,7 +130,9 @@ pub fn replay(args: &Args) -> i32 {
             cells.push((pos, kind, raw));
         }
         rep.case(&b, rich || cells.len() > 1);
-        match catch(|| read(fmt, build(fmt, &cells))) {
+        // xlsx: every document in both reference styles (explicit everywhere / implicit where allowed)
+        let implicit = fmt == "xlsx" && rep.evaluated % 2 == 0;
+        match catch(|| read(fmt, build(fmt, &cells, implicit))) {
             Ok(Ok(r)) => {
                 let got = observed(&r);
                 if got != want {
@@ -150,7 +158,8 @@ pub fn drive(args: &Args) -> i32 {
     let mut out = std::io::BufWriter::new(std::fs::File::create(args.req("out")).unwrap());
     for run in 0..n {
         let fmt = if rng.gen_bool(0.5) { "xlsx" } else { "ods" };
-        let (r0, c0) = (rng.gen_range(0..300u32), rng.gen_range(0..40u32));
+        // a third of the documents start at A1, where implicit references apply
+        let (r0, c0) = if rng.gen_bool(0.33) { (0, 0) } else { (rng.gen_range(0..300u32), rng.gen_range(0..40u32)) };
         let ncell = rng.gen_range(1..16usize);
         let mut all: Vec<(u32, u32)> = (0..10).flat_map(|r| (0..8).map(move |c| (r0 + r, c0 + c))).collect();
         for i in 0..ncell { let j = rng.gen_range(i..all.len()); all.swap(i, j); }
@@ -162,7 +171,8 @@ pub fn drive(args: &Args) -> i32 {
             cells.push((pos, kind.to_string(), default_escape(text, fmt == "ods")));
             logged.push(json!({"p": [pos.0, pos.1], "kind": kind, "text": if kind == "val" { "" } else { text }}));
         }
-        let ev = match catch(|| read(fmt, build(fmt, &cells))) {
+        let implicit = rng.gen_bool(0.5);
+        let ev = match catch(|| read(fmt, build(fmt, &cells, implicit))) {
             Ok(Ok(r)) => json!({"e": "formulas", "run": run, "fmt": fmt, "cells": logged, "got": observed(&r).iter().map(|(k, v)| json!([k.0, k.1, v])).collect::<Vec<_>>()}),
             Ok(Err(e)) => json!({"e": "formulas", "run": run, "fmt": fmt, "cells": logged, "error": e}),
             Err(p) => json!({"e": "formulas", "run": run, "fmt": fmt, "cells": logged, "panic": p}),
